@@ -134,6 +134,9 @@ Proof.
   - cbn [Nat.eqb] in IH. destruct (Z.ltb_spec lo 1023); [exact IH|lia].
 Qed.
 
+Section KeysProofs.
+Variable tagged : bool.
+
 (** ** sequential allocator *)
 Definition kinv (s : kst) (h : list Z) : Prop :=
   exists fl, chain (knext s) (kfree s) fl /\ NoDup (fl ++ h) /\
@@ -162,40 +165,40 @@ Proof.
   rewrite app_length, zrange_length in E. exact E.
 Qed.
 
-Lemma seq_create_empty s h d : kfree s = NULL -> seq_op s h (Create d) = Some (s, h, -1).
+Lemma seq_create_empty s h d : kfree s = NULL -> seq_op tagged s h (Create d) = Some (s, h, -1).
 Proof. intros E. unfold seq_op, start. cbn [run_thread tick]. rewrite E. reflexivity. Qed.
 
 Lemma seq_create_pop s h d : kfree s <> NULL ->
-  seq_op s h (Create d) =
-  Some (mkK (knext s (kfree s)) (fupd (knext s) (kfree s) LIVE) (fupd (kdtor s) (kfree s) d),
+  seq_op tagged s h (Create d) =
+  Some (mkK (knext s (kfree s)) (fupd (knext s) (kfree s) LIVE) (fupd (kdtor s) (kfree s) d) (bump tagged s (kfree s)),
         kfree s :: h, kfree s).
 Proof.
   intros E. unfold seq_op, start. cbn [run_thread tick]. apply Z.eqb_neq in E. rewrite E.
   cbn [run_thread tick]. rewrite Z.eqb_refl. reflexivity.
 Qed.
 
-Lemma seq_delete_oor s h k : ~ in_range k -> seq_op s h (Delete k) = Some (s, h, ERR).
+Lemma seq_delete_oor s h k : ~ in_range k -> seq_op tagged s h (Delete k) = Some (s, h, ERR).
 Proof. intros H. unfold seq_op, start. rewrite key_oor_true by exact H. reflexivity. Qed.
 
-Lemma seq_delete_dead s h k : in_range k -> knext s k <> LIVE -> seq_op s h (Delete k) = Some (s, h, ERR).
+Lemma seq_delete_dead s h k : in_range k -> knext s k <> LIVE -> seq_op tagged s h (Delete k) = Some (s, h, ERR).
 Proof.
   intros H E. unfold seq_op, start. rewrite key_oor_false by exact H. cbn [run_thread tick].
   apply Z.eqb_neq in E. rewrite E. reflexivity.
 Qed.
 
 Lemma seq_delete_live s h k : in_range k -> knext s k = LIVE ->
-  seq_op s h (Delete k) =
-  Some (mkK k (fupd (knext s) k (kfree s)) (kdtor s), remove1 k h, kdtor s k).
+  seq_op tagged s h (Delete k) =
+  Some (mkK k (fupd (knext s) k (kfree s)) (kdtor s) (kgen s), remove1 k h, kdtor s k).
 Proof.
   intros H E. unfold seq_op, start. rewrite key_oor_false by exact H. cbn [run_thread tick].
   rewrite E. change (LIVE =? LIVE) with true. cbn [run_thread tick kfree]. rewrite Z.eqb_refl. reflexivity.
 Qed.
 
 Theorem seq_create_spec s h d : kinv s h ->
-  (length h = 1024%nat /\ seq_op s h (Create d) = Some (s, h, -1)) \/
-  ((length h < 1024)%nat /\ exists k s', seq_op s h (Create d) = Some (s', k :: h, k) /\
+  (length h = 1024%nat /\ seq_op tagged s h (Create d) = Some (s, h, -1)) \/
+  ((length h < 1024)%nat /\ exists k s', seq_op tagged s h (Create d) = Some (s', k :: h, k) /\
      in_range k /\ ~ In k h /\ kdtor s' k = d /\ (forall k', k' <> k -> kdtor s' k' = kdtor s k') /\
-     kinv s' (k :: h)).
+     kinv s' (k :: h) /\ kgen s' = bump tagged s k).
 Proof.
   intros (fl & Hc & Hnd & Hin & Hlive).
   pose proof (kinv_length h fl Hnd Hin) as Hlen.
@@ -209,6 +212,7 @@ Proof.
     cbn [app] in Hnd. apply NoDup_cons_iff in Hnd. destruct Hnd as [Hxn Hnd].
     split; [exact Hx|]. split; [intros H; apply Hxn, in_or_app; right; exact H|].
     cbn [kdtor]. split; [apply fupd_same|]. split; [intros k' Hk'; apply fupd_other; exact Hk'|].
+    split; [|reflexivity].
     exists fl'. cbn [knext kfree]. split; [|split; [|split]].
     + apply chain_fupd; [|exact Hc]. intros H. apply Hxn, in_or_app. left. exact H.
     + eapply Permutation_NoDup; [apply Permutation_middle|]. constructor; assumption.
@@ -220,9 +224,9 @@ Proof.
 Qed.
 
 Theorem seq_delete_spec s h k : kinv s h ->
-  (In k h /\ exists s', seq_op s h (Delete k) = Some (s', remove1 k h, kdtor s k) /\
-                        kinv s' (remove1 k h)) \/
-  (~ In k h /\ seq_op s h (Delete k) = Some (s, h, ERR)).
+  (In k h /\ exists s', seq_op tagged s h (Delete k) = Some (s', remove1 k h, kdtor s k) /\
+                        kinv s' (remove1 k h) /\ kgen s' = kgen s) \/
+  (~ In k h /\ seq_op tagged s h (Delete k) = Some (s, h, ERR)).
 Proof.
   intros (fl & Hc & Hnd & Hin & Hlive).
   assert (Hfr : forall x, In x fl -> in_range x) by (intros x Hx; apply Hin, in_or_app; left; exact Hx).
@@ -234,6 +238,7 @@ Proof.
     pose proof (remove1_perm k h Hk) as Pk.
     assert (P : Permutation ((k :: fl) ++ remove1 k h) (fl ++ h)).
     { cbn [app]. rewrite Pk at 2. apply Permutation_middle. }
+    split; [|reflexivity].
     exists (k :: fl). cbn [knext kfree chain]. split; [|split; [|split]].
     + split; [reflexivity|]. rewrite fupd_same. apply chain_fupd; assumption.
     + eapply Permutation_NoDup; [symmetry; exact P|exact Hnd].
@@ -252,13 +257,13 @@ Qed.
 
 (** every history *)
 Theorem seq_hist_spec os : forall s h, kinv s h ->
-  exists s' h' rs, seq_hist s h os = Some (s', h', rs) /\ kinv s' h' /\ length rs = length os.
+  exists s' h' rs, seq_hist tagged s h os = Some (s', h', rs) /\ kinv s' h' /\ length rs = length os.
 Proof.
   induction os as [|o r IH]; intros s h Hi; cbn [seq_hist]; [eauto 6|].
-  assert (Hstep : exists s1 h1 x, seq_op s h o = Some (s1, h1, x) /\ kinv s1 h1).
+  assert (Hstep : exists s1 h1 x, seq_op tagged s h o = Some (s1, h1, x) /\ kinv s1 h1).
   { destruct o as [d|k].
-    - destruct (seq_create_spec s h d Hi) as [[_ E]|[_ (k & s' & E & _ & _ & _ & _ & Hi')]]; eauto 6.
-    - destruct (seq_delete_spec s h k Hi) as [[_ (s' & E & Hi')]|[_ E]]; eauto 6. }
+    - destruct (seq_create_spec s h d Hi) as [[_ E]|[_ (k & s' & E & _ & _ & _ & _ & Hi' & _)]]; eauto 6.
+    - destruct (seq_delete_spec s h k Hi) as [[_ (s' & E & Hi' & _)]|[_ E]]; eauto 6. }
   destruct Hstep as (s1 & h1 & x & E & Hi1). rewrite E.
   destruct (IH s1 h1 Hi1) as (s2 & h2 & rs & E2 & Hi2 & Hl). rewrite E2.
   eexists _, _, _. split; [reflexivity|]. split; [exact Hi2|]. cbn [length]. rewrite Hl. reflexivity.
@@ -275,18 +280,18 @@ Qed.
 
 
 (** the state after any history satisfies the invariant *)
-Lemma seq_hist_kinv os s h rs : seq_hist kinit [] os = Some (s, h, rs) -> kinv s h.
+Lemma seq_hist_kinv os s h rs : seq_hist tagged kinit [] os = Some (s, h, rs) -> kinv s h.
 Proof.
   intros H. destruct (seq_hist_spec os kinit [] kinv_init) as (s' & h' & rs' & E & Hi & _).
   rewrite E in H. inversion H; subst. exact Hi.
 Qed.
 
-Theorem seq_history_total os : exists s h rs, seq_hist kinit [] os = Some (s, h, rs) /\ length rs = length os.
+Theorem seq_history_total os : exists s h rs, seq_hist tagged kinit [] os = Some (s, h, rs) /\ length rs = length os.
 Proof.
   destruct (seq_hist_spec os kinit [] kinv_init) as (s' & h' & rs' & E & _ & Hl). eauto 6.
 Qed.
 
-Theorem seq_history_distinct os s h rs : seq_hist kinit [] os = Some (s, h, rs) ->
+Theorem seq_history_distinct os s h rs : seq_hist tagged kinit [] os = Some (s, h, rs) ->
   NoDup h /\ (forall k, In k h -> in_range k /\ knext s k = LIVE) /\
   exists fl, chain (knext s) (kfree s) fl /\ Permutation (fl ++ h) (zrange 0 1024).
 Proof.
@@ -295,21 +300,21 @@ Proof.
   intros k Hk. split; [apply H2; exact Hk|]. destruct Hi as (fl & _ & _ & _ & Hl). apply Hl. exact Hk.
 Qed.
 
-Theorem seq_history_create os s h rs d : seq_hist kinit [] os = Some (s, h, rs) ->
-  (length h = 1024%nat /\ seq_op s h (Create d) = Some (s, h, -1)) \/
-  ((length h < 1024)%nat /\ exists k s', seq_op s h (Create d) = Some (s', k :: h, k) /\
+Theorem seq_history_create os s h rs d : seq_hist tagged kinit [] os = Some (s, h, rs) ->
+  (length h = 1024%nat /\ seq_op tagged s h (Create d) = Some (s, h, -1)) \/
+  ((length h < 1024)%nat /\ exists k s', seq_op tagged s h (Create d) = Some (s', k :: h, k) /\
      in_range k /\ ~ In k h /\ kdtor s' k = d /\ (forall k', k' <> k -> kdtor s' k' = kdtor s k')).
 Proof.
-  intros H. destruct (seq_create_spec s h d (seq_hist_kinv os s h rs H)) as [G|[G1 (k & s' & G2 & G3 & G4 & G5 & G6 & _)]];
+  intros H. destruct (seq_create_spec s h d (seq_hist_kinv os s h rs H)) as [G|[G1 (k & s' & G2 & G3 & G4 & G5 & G6 & _ & _)]];
     [left; exact G|right]. split; [exact G1|]. exists k, s'. tauto.
 Qed.
 
-Theorem seq_history_delete os s h rs k : seq_hist kinit [] os = Some (s, h, rs) ->
-  (In k h /\ exists s', seq_op s h (Delete k) = Some (s', remove1 k h, kdtor s k) /\ ~ In k (remove1 k h)) \/
-  (~ In k h /\ seq_op s h (Delete k) = Some (s, h, ERR)).
+Theorem seq_history_delete os s h rs k : seq_hist tagged kinit [] os = Some (s, h, rs) ->
+  (In k h /\ exists s', seq_op tagged s h (Delete k) = Some (s', remove1 k h, kdtor s k) /\ ~ In k (remove1 k h)) \/
+  (~ In k h /\ seq_op tagged s h (Delete k) = Some (s, h, ERR)).
 Proof.
   intros H. pose proof (seq_hist_kinv os s h rs H) as Hi.
-  destruct (seq_delete_spec s h k Hi) as [[G1 (s' & G2 & _)]|G]; [left|right; exact G].
+  destruct (seq_delete_spec s h k Hi) as [[G1 (s' & G2 & _ & _)]|G]; [left|right; exact G].
   split; [exact G1|]. exists s'. split; [exact G2|].
   destruct (kinv_distinct s h Hi) as (Hnd & _). apply remove1_nodup. exact Hnd.
 Qed.
@@ -446,7 +451,7 @@ Qed.
 Lemma cinv_pop fl s t ke n d :
   cinv_at fl s -> nth_error (threads s) t = Some (ACas ke n d) -> kfree (ks s) = ke ->
   exists fl', cinv_at fl'
-    (mkS (mkK n (fupd (knext (ks s)) ke LIVE) (fupd (kdtor (ks s)) ke d)) (ke :: held s)
+    (mkS (mkK n (fupd (knext (ks s)) ke LIVE) (fupd (kdtor (ks s)) ke d) (bump tagged (ks s) ke)) (ke :: held s)
          (set_nth (threads s) t (Done ke))).
 Proof.
   intros [Hc Hnf Hnh Hflr Hheld Hdisj Hdet Huniq Hcov Hloc] Ht Hfree.
@@ -526,7 +531,7 @@ Qed.
 (* a delete reads the head and links its cell in front of it *)
 Lemma cinv_link fl s t k f :
   cinv_at fl s -> nth_error (threads s) t = Some (DHead k f) ->
-  cinv_at fl (mkS (mkK (kfree (ks s)) (fupd (knext (ks s)) k (kfree (ks s))) (kdtor (ks s))) (held s)
+  cinv_at fl (mkS (mkK (kfree (ks s)) (fupd (knext (ks s)) k (kfree (ks s))) (kdtor (ks s)) (kgen (ks s))) (held s)
                   (set_nth (threads s) t (DCas k (kfree (ks s)) f))).
 Proof.
   intros [Hc Hnf Hnh Hflr Hheld Hdisj Hdet Huniq Hcov Hloc] Ht.
@@ -564,7 +569,7 @@ Qed.
 Lemma cinv_push fl s t k h f :
   cinv_at fl s -> nth_error (threads s) t = Some (DCas k h f) -> kfree (ks s) = h ->
   existsb (at_cas_of k) (threads s) = false ->
-  cinv_at (k :: fl) (mkS (mkK k (knext (ks s)) (kdtor (ks s))) (held s) (set_nth (threads s) t (Done f))).
+  cinv_at (k :: fl) (mkS (mkK k (knext (ks s)) (kdtor (ks s)) (kgen (ks s))) (held s) (set_nth (threads s) t (Done f))).
 Proof.
   intros [Hc Hnf Hnh Hflr Hheld Hdisj Hdet Huniq Hcov Hloc] Ht Hfree Hguard.
   destruct (Hdet t _ k Ht eq_refl) as (Hr & Hkfl & Hkh).
@@ -596,13 +601,13 @@ Proof.
 Qed.
 
 (** *** every step of the guarded system preserves the invariant *)
-Lemma gstep_sub s a s' : gstep s a = Some s' -> step s a = Some s'.
+Lemma gstep_sub s a s' : gstep tagged s a = Some s' -> step tagged s a = Some s'.
 Proof.
   destruct a as [t e]. unfold gstep. destruct e; try tauto.
   destruct (aba_window s t); [discriminate|tauto].
 Qed.
 
-Theorem cinv_gstep s a s' : cinv s -> gstep s a = Some s' -> cinv s'.
+Theorem cinv_gstep s a s' : cinv s -> gstep tagged s a = Some s' -> cinv s'.
 Proof.
   intros [fl Hi] Hg. pose proof (gstep_sub s a s' Hg) as Hs.
   destruct a as [t e]. unfold step in Hs.
@@ -683,7 +688,7 @@ Qed.
 
 Definition is_init (s : state) : Prop := exists n, s = init n.
 
-Theorem cinv_reachable s : reachable is_init gstep s -> cinv s.
+Theorem cinv_reachable s : reachable is_init (gstep tagged) s -> cinv s.
 Proof.
   apply invariant_rule.
   - intros s0 [n ->]. apply cinv_init.
@@ -705,7 +710,7 @@ Proof.
 Qed.
 
 (** the guarded system is a sub-system of the real one *)
-Lemma greachable_reachable s : reachable is_init gstep s -> reachable is_init step s.
+Lemma greachable_reachable s : reachable is_init (gstep tagged) s -> reachable is_init (step tagged) s.
 Proof.
   induction 1 as [s H0|s a s' Hr IH Hst]; [apply reach_init; exact H0|].
   eapply reach_step; [exact IH|apply gstep_sub; exact Hst].
@@ -725,8 +730,8 @@ Proof.
 Qed.
 
 Theorem aba_witness :
-  let s := run step aba_schedule (init 3) in
-  reachable is_init step s /\
+  let s := run (step tagged) aba_schedule (init 3) in
+  reachable is_init (step tagged) s /\
   held s = [1; 0; 1] /\ result s 0 = Some 0 /\ result s 2 = Some 1 /\
   kfree (ks s) = LIVE /\ ~ NoDup (held s).
 Proof.
@@ -736,7 +741,7 @@ Proof.
   intros H. apply distinctb_spec in H. vm_compute in H. discriminate.
 Qed.
 
-Theorem distinct_concurrent_refuted : ~ (forall s, reachable is_init step s -> NoDup (held s)).
+Theorem distinct_concurrent_refuted : ~ (forall s, reachable is_init (step tagged) s -> NoDup (held s)).
 Proof.
   intros H. destruct aba_witness as (Hr & _ & _ & _ & _ & Hn). apply Hn. apply H. exact Hr.
 Qed.
@@ -744,7 +749,7 @@ Qed.
 (** what the guard removes from the real system: exactly the successful push of
     a key that a create holds as the operand of its pending CAS *)
 Theorem guard_exact s t : 
-  (gstep s (t, Tick) = None /\ step s (t, Tick) <> None) <->
+  (gstep tagged s (t, Tick) = None /\ step tagged s (t, Tick) <> None) <->
   exists k h f, nth_error (threads s) t = Some (DCas k h f) /\ kfree (ks s) = h /\
                 exists u n d, nth_error (threads s) u = Some (ACas k n d).
 Proof.
@@ -764,3 +769,4 @@ Proof.
     rewrite E. split; [reflexivity|]. unfold step. rewrite Ht. cbn [running tick].
     apply Z.eqb_eq in Hf. rewrite Hf. discriminate.
 Qed.
+End KeysProofs.
